@@ -89,7 +89,8 @@ class EvalMainContext(object):
         return self._hashes[path]
 
     def is_authorized_path(self, cp: CanonicalPath) -> bool:
-        for idx in range(len(self.whitelisted_packages)):
+        # A path is authorized if one of its (non-empty) prefixes is an accepted package.
+        for idx in range(1, len(cp._path.parts) + 1):
             if ".".join(cp._path.parts[:idx]) in self.whitelisted_packages:
                 return True
         return False
